@@ -72,6 +72,12 @@ def infer_case(sh, k):
         used, out = marshal.unmarshal('v', b''.join(chunks))
         rt = normal(out[0]) == normal(val) and used == n
         detail = '' if rt else 'decoded %r' % (out[0],)
+        if rt and k % 2:
+            # ... and in the other byte order
+            n, chunks = marshal.marshal('v', [val], 0, False)
+            used, out = marshal.unmarshal('v', b''.join(chunks), 0, False)
+            rt = normal(out[0]) == normal(val) and used == n
+            detail = '' if rt else 'big-endian: decoded %r' % (out[0],)
     except Exception as ex:
         rt, detail = False, 'variant round trip raised %s: %s' % (type(ex).__name__, str(ex)[:60])
     return tuple(sg) if all(c in 'ybnqiuxtdsogav(){}h' for c in sg) else ('?',), rt, detail
